@@ -60,7 +60,7 @@ def _loop (ctx, repo, f, L):
           if off is None: b = None if L.cur is None else '<start>'
           if fmt is not None and (b == L.cur or (off is None and L.cur is None)):
             reads.append((n, s_, k + struct.calcsize(fmt), "unpack_from(%r)" % fmt))
-  ctx.floor('%s: header reads' % f.name, len(reads), 3)
+  ctx.floor('%s: header reads' % f.name, len(reads), 1)
   for n, s_, need, what in reads:
     if n not in L.body and n is not L.head: continue
     have = framing.avail_lower_bound(L, n)
@@ -83,12 +83,12 @@ def _loop (ctx, repo, f, L):
     sub_ = L.decode_sub[id(c)]; tbl = norm(sub_.value); idx = norm(sub_.slice)
     tdef = q.single_def(f.node, idx)
     good = tdef is not None and norm(tdef) == '%s[%s]' % (L.buf, ('%s + 1' % L.cur) if L.cur else '1')
-    if tdef is None:
+    if tdef is None or (isinstance(tdef, ast.Call) and call_name(tdef) == 'unpack_from'):
       for a_ in walk_no_nested(f.node):
         if isinstance(a_, ast.Assign) and isinstance(a_.targets[0], ast.Tuple) and isinstance(a_.value, ast.Call) and call_name(a_.value) == 'unpack_from':
           fmt = repo.try_const(mod, a_.value.args[0]); offs = framing.field_offsets(fmt) if isinstance(fmt, str) else []
           for (o, sz), nm in zip(offs, a_.targets[0].elts):
-            if norm(nm) == idx and o == 1 and sz == 1 and norm(a_.value.args[1]) == L.buf: good = True; tdef = a_.value
+            if norm(nm) == idx and o == 1 and sz == 1 and norm(a_.value.args[1]) == L.buf and (not L.cur or (len(a_.value.args) > 2 and norm(a_.value.args[2]) == L.cur)): good = True; tdef = a_.value
     ctx.ob('R-AGREE', f, "decoder selected by the header's type byte", good, "%s = %s" % (idx, norm(tdef)), (mod, c), 'D3')
   # ---- D4 advance by exactly WLEN ------------------------------------------------------
   after_dec = set()
@@ -104,7 +104,7 @@ def _loop (ctx, repo, f, L):
       # cursor = new_offset under assert new_offset - cursor == WLEN
       fs = q.fact_strs(g, n)
       want = ['%s - %s == %s' % (norm(v), L.cur, L.wlen), '%s == %s - %s' % (L.wlen, norm(v), L.cur), '%s == %s + %s' % (norm(v), L.cur, L.wlen)]
-      good = any(w in fs for w in want) or norm(v) in ('%s + %s' % (L.cur, L.wlen), '%s + %s' % (L.wlen, L.cur))
+      good = any(w in fs for w in want) or norm(v) in ('%s + %s' % (L.cur, L.wlen), '%s + %s' % (L.wlen, L.cur)) or framing.advance_tied(L, g, n, norm(v))
       ctx.ob('R-AGREE', f, "`%s` advances the cursor by exactly the declared length" % n.text(50), good, "asserted %s" % want[0] if good else
              "no dominating fact ties the new cursor `%s` to cursor + %s (facts %s)" % (norm(v), L.wlen, fs), (mod, n.ast), 'D4')
   # every path decode -> loop head advances exactly once
